@@ -23,6 +23,14 @@ CERTS = [('absent', None, None)] + [
     for cns in ((), ('alice',), ('alice', 'mallory'))
     for eku in (None, 'server', 'client')]
 
+# further extended-key-usage shapes (one common name): key purposes whose OID merely CONTAINS or
+# extends the clientAuth OID 1.3.6.1.5.5.7.3.2, other purposes, anyExtendedKeyUsage, several
+# purposes with and without clientAuth, a critical extension
+EKU_SHAPES = [('1.3.6.1.5.5.7.3.20',), ('1.3.6.1.5.5.7.3.21', 'server'), ('1.3.6.1.5.5.7.3.2.1',),
+              ('1.3.6.1.5.5.7.3',), ('any',), ('server', '1.3.6.1.5.5.7.3.3', '1.3.6.1.5.5.7.3.4'),
+              ('server', 'client'), ('1.3.6.1.5.5.7.3.8', 'client', 'any'), ('!client',), ('!server',)]
+CERTS += [('cn1/' + '+'.join(e), ('alice',), e) for e in EKU_SHAPES]
+
 # scripted answers of one SLUGS service, encoded in its URL
 SLUGS_SCRIPTS = ['ok:g1', 'ok:', 'ok:g1,g2', 'ok-nokey', 'user404', 'groups404', 'connerr1', 'connerr2',
                  'nonjson', 'user500', 'groups500']
@@ -130,7 +138,9 @@ def reference(cns, eku, tls_auth, settings):
     """-> None (no identity) or (user, groups)."""
     if cns is None:
         return None
-    if tls_auth and eku != 'client':
+    has_client_auth = (eku == 'client') if not isinstance(eku, tuple) else (
+        'client' in [e.lstrip('!') for e in eku])
+    if tls_auth and not has_client_auth:
         return None
     enabled = []
     for name, cfg in (settings or []):
